@@ -41,10 +41,13 @@ DECOMPILE_SRC = {
     "d_strings": "def 0 { if (debug) { say('two\\nlines', {english='a\\nb'}); } say2(\"x\\ny\"); hold; }",
     "d_two_routines": "def 0 { a(); if ($A > 1) { b(); } end; } def 1 for actor 2 { switch (random(3)) { case 0: c(); break; } hold; }",
 }
+SSBS_TEXT = "def 0 { a(1, 'x'); @l; Branch($V, 1, @l); two('a\\nb', {english='e'}); End(); }"
+SSBS_BAD = "def 0 { a(1; }"
 RAW_FALLBACK = "raw_fallback"   # a set the structuring passes reject -> SsbScript fallback (raises inside convert)
 CLI_DOC = "cli_doc"
 
-OPS = list(COMPILE_TEXTS) + ["c_reuse:c_simple", "c_reuse:c_switch", "c_reuse:c_fail_late"] + list(DECOMPILE_SRC) + [RAW_FALLBACK, CLI_DOC]
+OPS = (list(COMPILE_TEXTS) + ["c_reuse:c_simple", "c_reuse:c_switch", "c_reuse:c_fail_late"] + list(DECOMPILE_SRC) +
+       [RAW_FALLBACK, CLI_DOC, "ssbs_compile", "ssbs_compile_bad", "ssbs_decompile"])
 
 
 def digest(obj):
@@ -87,6 +90,16 @@ class World:
                 c = self.reused
                 c.compile(COMPILE_TEXTS[op.split(":", 1)[1]], "/nonexistent-dir/main.exps")
                 return ["ok", describe_comp(impl.Compiled(c))]
+            if op == "ssbs_compile":
+                return ["ok", describe_comp(impl.compile_ssbs(SSBS_TEXT))]
+            if op == "ssbs_compile_bad":
+                return ["ok", describe_comp(impl.compile_ssbs(SSBS_BAD))]
+            if op == "ssbs_decompile":
+                rops, infos, coros = self.decompile_input("d_strings")
+                before = decomp.snapshot(rops, infos, coros)
+                text, sm = impl.decompile_ssbs(rops, infos, coros)
+                after = decomp.snapshot(rops, infos, coros)
+                return ["ok", [text, sm.serialize(), "input-unchanged" if before == after else "INPUT-CHANGED"]]
             if op == CLI_DOC:
                 from explorerscript.cli import decompile as cli
                 doc = [{"type": "GENERIC", "ops": [{"opcode": "BranchDebug", "params": [1, 3]}, {"opcode": "a", "params": []},
@@ -256,7 +269,7 @@ def run(tier, seed):
         ID, LEVEL, tier, seed, total, t0,
         rule=f"all histories of <= {depth} calls over {len(OPS)} operations (7 compile texts incl. 3 that raise at different stages, "
              "3 of them also through one reused compiler object, 6 decompiler inputs reused across calls, a routine set that "
-             "takes the fallback path, the CLI's read_routines + decompile) x environment choices (gc.collect() between calls; "
+             "takes the fallback path, the CLI's read_routines + decompile, SsbScript compile (good / syntax error) and decompile) x environment choices (gc.collect() between calls; "
              "3 graphs held to shift the heap phase), plus 42 twelve-call alternations of two decompiler inputs; every history runs "
              "in a fresh fork of the pristine template; after every call the result (ops / text / serialised source map / "
              "exception, and 'input routine set structurally unchanged') must equal the pristine result; the pristine results "
